@@ -8,7 +8,10 @@ Reads (python `ast`, closed list of shapes; anything else raises Untranslatable 
       handlers_list += qui_tornado.make_routing_table()              -> one opaque "frontend files" block
       if <flag>: <the same statements, nested>                        (no else)
       return handlers_list
-  <flag> is `settings.a.b...` or a call without arguments `name()` / `a.b.name()`; its source text is the flag's name.
+  <flag> is `settings.a.b...` or one of the known calls (closed list: is_discover_enabled(), history.is_enabled(),
+  system.conf.can_write_conf_file()); its source text is the condition's name; any other condition is refused.
+  history.is_enabled() is itself read from core/history.py (`return persist.is_samples_supported() and
+  settings.core.history_support`) into the atomic facts it is the conjunction of (gen_derived).
   Each regex must have the shape  ^/lit/lit/(?P<n>[charset]+)/.../?$ , may end in /(?P<n>.+)$ , or be a catch-all
   ^/api/.*$ , ^/.*$ ; its shape ("template") replaces every identifier group by {} and the rest group by {+}.
 * web/handlers.py: every class.  Base APIHandler: `AUTH_ENABLED = <bool>`, `async def <method>(self, ...)` whose body is
@@ -70,16 +73,50 @@ def template_of_regex(rx):
     return '/' + '/'.join(out), slash
 
 
+# call-shaped conditions the translator knows (closed list): atomic facts of the environment, or functions whose body is
+# translated into a conjunction of atomic facts (DERIVED: name -> (file, function))
+ATOMIC_CALLS = ['is_discover_enabled()', 'system.conf.can_write_conf_file()', 'persist.is_samples_supported()']
+DERIVED_CALLS = {'history.is_enabled()': ('qtoggleserver/core/history.py', 'is_enabled')}
+
+
 def _flag_of(test):
-    """guard expression -> flag name (its canonical source text)"""
+    """guard expression -> condition name (its canonical source text); unknown conditions are refused"""
     d = dotted(test)
     if d and d.startswith('settings.'):
         return d
     if isinstance(test, ast.Call) and not test.args and not test.keywords:
         d = dotted(test.func)
-        if d:
+        if d and (d + '()' in ATOMIC_CALLS or d + '()' in DERIVED_CALLS):
             return d + '()'
-    raise Untranslatable('guard expression ' + ast.unparse(test)[:80])
+    raise Untranslatable('unknown condition ' + ast.unparse(test)[:80])
+
+
+def parse_derived():
+    """{'history.is_enabled()': [atomic facts]}: the body must be `return A and B ...` over settings.* / known atomic calls"""
+    out = {}
+    for name, (rel, fname) in DERIVED_CALLS.items():
+        with open(repo.path(rel)) as f:
+            tree = ast.parse(f.read())
+        fns = [n for n in tree.body if isinstance(n, ast.FunctionDef) and n.name == fname]
+        if len(fns) != 1:
+            raise Untranslatable('%s: def %s not found' % (rel, fname))
+        body = [x for x in fns[0].body if not apitable._is_docstring(x)]
+        if not (len(body) == 1 and isinstance(body[0], ast.Return) and body[0].value is not None):
+            raise Untranslatable('%s.%s is not a single return' % (rel, fname))
+        v = body[0].value
+        parts = v.values if isinstance(v, ast.BoolOp) and isinstance(v.op, ast.And) else [v]
+        atoms = []
+        for t in parts:
+            d = dotted(t)
+            if d and d.startswith('settings.'):
+                atoms.append(d)
+            elif (isinstance(t, ast.Call) and not t.args and not t.keywords and dotted(t.func)
+                  and dotted(t.func) + '()' in ATOMIC_CALLS):
+                atoms.append(dotted(t.func) + '()')
+            else:
+                raise Untranslatable('%s.%s: unknown condition %s' % (rel, fname, ast.unparse(t)[:60]))
+        out[name] = atoms
+    return out
 
 
 def parse_server():
@@ -503,6 +540,7 @@ def parse():
     global LAST
     LAST = None
     api = apitable.LAST or apitable.parse()
+    derived = parse_derived()
     entries = parse_server()
     classes = parse_handlers(api)
     base = parse_base()
@@ -516,18 +554,25 @@ def parse():
     for e in entries:
         if e['tmpl'] in ('/api/*', '/*') and e['kind'] != 'KNotFound':
             raise Untranslatable('catch-all route %s served by %s' % (e['tmpl'], e['handler']))
-    flags = []
+    def atoms(gs):
+        out = []
+        for g in gs:
+            out += derived.get(g, [g])
+        return out
+    flags = []   # the atomic facts, in order of appearance
     for e in entries:
-        for g in e['guard']:
+        e['guard_atoms'] = atoms(e['guard'])
+        for g in e['guard_atoms']:
             if g not in flags:
                 flags.append(g)
     for c in classes.values():
         for m in c['methods'].values():
-            for g in m['pre']:
+            m['pre_atoms'] = atoms(m['pre'])
+            for g in m['pre_atoms']:
                 if g not in flags:
                     flags.append(g)
     LAST = {'api': api, 'entries': entries, 'classes': classes, 'json_methods': base['json_methods'], 'flags': flags,
-            'grant': base['grant']}
+            'grant': base['grant'], 'derived': derived}
     return LAST
 
 
@@ -578,13 +623,16 @@ def gen_text(t):
             [n for n, c in t['classes'].items() if c['kind'] == 'KApi' and not c['auth']], s),
         'Definition gen_json_methods : list meth := %s.' % coq.lst(t['json_methods']),
         'Definition gen_flags : list string := %s.' % coq.lst(t['flags'], s),
+        '(* guard names that are functions of atomic facts (core/history.py is_enabled) *)',
+        'Definition gen_derived : list (string * list string) := %s.' % coq.lst(
+            sorted(t['derived'].items()), lambda p: '(%s, %s)' % (s(p[0]), coq.lst(p[1], s))),
         '',
         '(* web/base.py APIHandler.prepare, after the AUTH_ENABLED gate: the level granted to a request *)',
         'Definition grant (present valid admin_empty : bool) (token_level : Z) : Z :=',
         '  let NONE := ACCESS_LEVEL_NONE in %s.' % t['grant'][0],
         '',
         'Definition gen_tables : tables := {|',
-        '  t_routes := gen_routes; t_hmeths := gen_hmeths; t_noauth := gen_noauth; t_levels := gen_levels;',
+        '  t_routes := gen_routes; t_derived := gen_derived; t_hmeths := gen_hmeths; t_noauth := gen_noauth; t_levels := gen_levels;',
         '  t_none := ACCESS_LEVEL_NONE; t_json_methods := gen_json_methods; t_wrapper := wrapper |}.',
         '',
     ]
